@@ -330,4 +330,49 @@ func upselPipelineHistories() {
 	emit("upsel", "degraded", itoa(int64(code)), itoa(int64(f)))
 	upstream.Reset(nil)
 	stat("pipeline-histories")
+	upselRecoverHistory()
+}
+
+// directed history: a primary and a backup.  The primary goes away between two health checks, so ONE client request
+// fails on it; it comes back and passes its next health check: traffic returns to it by itself (the backup is used
+// only while no primary is healthy)
+func upselRecoverHistory() {
+	ln, _ := net.Listen("tcp", "127.0.0.1:0")
+	addr := ln.Addr().String()
+	ln.Close()
+	prim := &upSrv{idx: 0, addr: addr, hold: -1}
+	prim.start()
+	defer func() { prim.stop(); prim.release() }()
+	backup := httptest.NewServer(http.HandlerFunc(func(w http.ResponseWriter, r *http.Request) {
+		w.Header().Set("Cache-Control", "no-store")
+		fmt.Fprint(w, "backup")
+	}))
+	defer backup.Close()
+	if !prim.up {
+		emit("upsel", "recover", "unavailable")
+		return
+	}
+	ucfg := []config.UpstreamConfig{{Name: "u1", Policy: "first", Servers: []config.UpstreamServerConfig{{Addr: "http://" + addr}, {Addr: backup.URL, Backup: true}}}}
+	p := newPipeline(100, "1s", false, serverOption(), nil, ucfg)
+	upstream.Reset(nil)
+	upstream.Reset(ucfg)
+	waitUpstreamHealthy("u1")
+	k := 0
+	one := func() (int, string) {
+		k++
+		w := p.do("GET", "x.test", fmt.Sprintf("/recover/%d", k), nil, nil)
+		return w.Code, w.Body.String()
+	}
+	c1, b1 := one()
+	prim.stop() // no health check has run yet: the pool still believes in it
+	c2, _ := one()
+	prim.start()
+	if us := upstream.Get("u1"); us != nil {
+		us.HTTPUpstream.DoHealthCheck()
+	}
+	c3, b3 := one()
+	c4, b4 := one()
+	emit("upsel", "recover", b2s(prim.up), itoa(int64(c1)), hx(b1), itoa(int64(c2)), itoa(int64(c3)), hx(b3), itoa(int64(c4)), hx(b4))
+	upstream.Reset(nil)
+	stat("recover-histories")
 }
